@@ -134,7 +134,7 @@ func (h Header) ContainsObject(obj parser.QueryExpression) (int, bool) {
 			continue
 		}
 
-		if !strings.EqualFold(f.Identifier, column) {
+		if !equalFoldOutsideStrings(f.Identifier, column) {
 			continue
 		}
 
@@ -268,4 +268,43 @@ func (h Header) Copy() Header {
 		header[i] = h[i]
 	}
 	return header
+}
+
+// equalFoldOutsideStrings compares two printed expressions ignoring letter case, as identifiers and keywords
+// demand, except inside string literals: LISTAGG(c, 'a') and LISTAGG(c, 'A') are different expressions.
+func equalFoldOutsideStrings(s1 string, s2 string) bool {
+	if len(s1) != len(s2) {
+		return false
+	}
+	if !strings.EqualFold(s1, s2) {
+		return false
+	}
+
+	var quote byte = 0
+	for i := 0; i < len(s1); i++ {
+		c := s1[i]
+		if quote != 0 {
+			if c != s2[i] {
+				return false
+			}
+			if c == '\\' {
+				i++
+				if i < len(s1) && s1[i] != s2[i] {
+					return false
+				}
+				continue
+			}
+			if c == quote {
+				quote = 0
+			}
+			continue
+		}
+		if c == '\'' || c == '"' {
+			if s2[i] != c {
+				return false
+			}
+			quote = c
+		}
+	}
+	return true
 }
